@@ -15,6 +15,8 @@ from fractions import Fraction
 
 import numpy as np
 
+from common import relayout
+
 from tlc import run_tlc, read_json
 
 BOXES = [(2.0, 1), (1000.0, 1024), (7.0, 3), (1.0e6, 6912)]
@@ -59,7 +61,7 @@ def check_rv(chk, words, exp_pos, exp_vel, tagname):
                 sbuf = np.full((n, 7), np.nan, dtype=dt)
                 posout = {'alloc': None, 'supplied': np.full((n, 3), np.nan, dtype=dt), 'strided': sbuf[:, 0:3], 'skip': False}[pm]
                 velout = {'alloc': None, 'supplied': np.full((n, 3), np.nan, dtype=dt), 'strided': sbuf[:, 4:7], 'skip': False}[vm]
-                r = unpack_rvint(words.copy(), box, float_dtype=dt, posout=posout, velout=velout)
+                r = unpack_rvint(relayout(words, nrun), box, float_dtype=dt, posout=posout, velout=velout)      # the input's memory layout rotates too
                 nrun += 1
                 p = r[0] if pm == 'alloc' else (posout if pm in ('supplied', 'strided') else None)
                 v = r[1] if vm == 'alloc' else (velout if vm in ('supplied', 'strided') else None)
@@ -102,7 +104,7 @@ def check_aux(chk, packed, exp, tagname):
                 subsets = [tuple(fields), ('pid',), ('lagr_pos', 'density'), ('tagged', 'lagr_idx')]
             for sub in subsets:
                 kw = {f: True for f in sub}
-                out = unpack_pids(packed.copy(), box=box, ppd=ppd, float_dtype=dt, **kw)
+                out = unpack_pids(relayout(packed, len(sub) + (dt == np.float64)), box=box, ppd=ppd, float_dtype=dt, **kw)
                 nrun += 1
                 if set(out) != set(sub):
                     chk.violation(f'aux-{tagname}-columns', f'unpack_pids({sub}) returned {sorted(out)}', dict(sub=list(sub)))
